@@ -971,8 +971,10 @@ def run(ctx):
         except Exception:  # noqa
             okp = [a for a in FALLBACK_ALPHABET if a.startswith("connect:") and "SPA_COMPLETE" in a][0].split(":")[1]
         with patched():
-            # (a RESET inside the late deliveries is not in this list yet: on the stub rig `enter;locate:f1;connect:ok:0@16;reset;resume0` ends
-            #  CONNECTED with a facade and no spa on the unchanged tree - to be examined against the real stack before it becomes a check)
+            # (a RESET is not in this list: the stubbed connect - like the lifecycle model - has a step between the last use of the protocol and
+            #  the mark "connected"; a reset parked there (`enter;locate:f1;connect:ok:0@16;reset;resume0`) ends CONNECTED without a spa on the
+            #  stub. The real `_connect` has no suspension point there: C08.connected_mark_follows_the_last_exchange_without_suspension.
+            #  Resets at the real await points of the real `_connect` are C10's crash-point sweep and the D blocks below.)
             for intruder in ("rferr:1", "ev:ERROR_PROTOCOL_RETRY_COUNT_EXCEEDED", "pingmiss:1"):
                 for k in range(0, 24):
                     sched = [("start", "enter", None), ("start", "locate:f1", None), ("start", f"connect:{okp}:0", k), ("start", intruder, None), ("resume", 0, None)]
